@@ -11,6 +11,7 @@ CONSTANTS
  MaxServes = 1
  MaxApplies = 1
  Faults = FALSE
+ KeepHist = TRUE
  Mutations = {"unknownDuid", "staleCp", "futureCp", "futureCseq", "gapOps", "repeatOps", "badBody", "readOnlyPush", "readOnlyCreate", "unregisteredClient", "wrongType", "allBits", "twoPacks", "noPacks", "unknownCollection", "emptyKey", "subscribeBitAgain", "createBitAgain"}
 INVARIANT LogNoRepeats
 INVARIANT LogEndRecorded
